@@ -199,10 +199,14 @@ def r7_no_reject(c, facts, rule='C18.R7'):
 
 def run(c, facts):
     import c17
+    R9 = c.rule('C18.R9', 'DEF-IDENT / CURSOR: rename edits the occurrences of the definition under the cursor and no other: definitions are compared by (module, node), and a position is on an identifier only inside its half-open span (shared with C17.R1, C17.R5)')
+    c.shared(R9, c17.r1_def_ident, 'C17.R1', facts)
+    c.shared(R9, c17.r5_cursor_half_open, 'C17.R5', facts)
     c.run(lambda c: r7_no_reject(c, facts))
     R8 = c.rule('C18.R8', 'BINDING-SOUND: rename follows the resolver\'s binding relation, which is lexical: binders live exactly as long as their construct (shared with C08.R1/R2)')
     c.shared(R8, c08.r1_innermost, 'C08.R1', facts)
     c.shared(R8, c08.r2_pairing, 'C08.R2', facts)
+    c.shared(R8, c08.r3_eager, 'C08.R3', facts)
     c.run(r6_prepare_target, facts)
     c.run(r4_qualifier_local, facts)
     c.run(lambda c: c08.r5_binder_kind(c, facts, rule='C18.R1', crates=('oal_client',)))
